@@ -197,8 +197,73 @@ func guardedBy(b *ssa.BasicBlock, pred func(cond ssa.Value, want bool) bool) boo
 		if pred(c, want) {
 			return true
 		}
+		// a condition kept in a boolean local (stray := a || b; if !pre && stray …): when the local is false every
+		// disjunct is false, when a conjunction is true every conjunct is true
+		if alts, isOr, ok := shortCircuitAlternatives(c); ok && want != isOr {
+			for _, a := range alts {
+				ac, aflip := stripNot(a)
+				if pred(ac, want != aflip) {
+					return true
+				}
+			}
+		}
 	}
 	return false
+}
+
+// shortCircuitAlternatives: v is the φ that Go's `a || b || c` (isOr) or `a && b && c` leaves behind when the result is
+// kept in a variable — constant edges from the blocks that tested the earlier operands, the last operand on the last
+// edge. It returns the operands. Only the canonical chain is recognised: each earlier operand's block ends in a
+// branch on that operand, one way to the φ's block (with the constant), the other way to the next operand's block.
+func shortCircuitAlternatives(v ssa.Value) (alts []ssa.Value, isOr bool, ok bool) {
+	ph, isPhi := v.(*ssa.Phi)
+	if !isPhi || len(ph.Edges) < 2 {
+		return nil, false, false
+	}
+	if b, isB := ph.Type().Underlying().(*types.Basic); !isB || b.Info()&types.IsBoolean == 0 {
+		return nil, false, false
+	}
+	blk := ph.Block()
+	decided := false
+	var last ssa.Value
+	nLast := 0
+	for i, e := range ph.Edges {
+		pred := blk.Preds[i]
+		k, isC := e.(*ssa.Const)
+		if !isC || k.Value == nil {
+			last = e
+			nLast++
+			continue
+		}
+		val := constant.BoolVal(k.Value)
+		if !decided {
+			isOr = val
+			decided = true
+		} else if isOr != val {
+			return nil, false, false
+		}
+		if len(pred.Instrs) == 0 {
+			return nil, false, false
+		}
+		ifi, isIf := pred.Instrs[len(pred.Instrs)-1].(*ssa.If)
+		if !isIf {
+			return nil, false, false
+		}
+		// `||`: the true edge of the operand's test leads here; `&&`: the false edge
+		want := 0
+		if !val {
+			want = 1
+		}
+		if pred.Succs[want] != blk {
+			return nil, false, false
+		}
+		alts = append(alts, ifi.Cond)
+	}
+	if !decided || nLast != 1 || last == nil {
+		return nil, false, false
+	}
+	alts = append(alts, last)
+	return alts, isOr, true
 }
 
 // ---------- constants ----------
@@ -1627,4 +1692,48 @@ func allNilConst(v ssa.Value) bool {
 		}
 	}
 	return true
+}
+
+// concatParts: the pieces a string value is put together from, in order — the operands of a chain of `+`, or what was
+// written into a local strings.Builder whose String() the value is (every write lies on the one way to that call).
+// A value that is neither stands for itself.
+func concatParts(v ssa.Value) []ssa.Value {
+	switch x := v.(type) {
+	case *ssa.BinOp:
+		if x.Op == token.ADD && isString(x.Type()) {
+			return append(concatParts(x.X), concatParts(x.Y)...)
+		}
+	case *ssa.Call:
+		if calleeName(&x.Call) == "(*strings.Builder).String" && len(x.Call.Args) == 1 {
+			if al, ok := x.Call.Args[0].(*ssa.Alloc); ok && al.Referrers() != nil {
+				type w struct {
+					at  ssa.Instruction
+					val ssa.Value
+				}
+				var ws []w
+				for _, r := range *al.Referrers() {
+					cs, ok := r.(ssa.CallInstruction)
+					if !ok || cs == ssa.CallInstruction(x) {
+						continue
+					}
+					nm := calleeName(cs.Common())
+					if nm == "(*strings.Builder).WriteString" || nm == "(*strings.Builder).WriteByte" || nm == "(*strings.Builder).WriteRune" {
+						if !dominates(cs, x) {
+							return []ssa.Value{v} // written on some ways only: not a plain concatenation
+						}
+						ws = append(ws, w{cs, cs.Common().Args[1]})
+					}
+				}
+				if len(ws) > 0 {
+					sort.SliceStable(ws, func(i, j int) bool { return dominates(ws[i].at, ws[j].at) })
+					var out []ssa.Value
+					for _, e := range ws {
+						out = append(out, e.val)
+					}
+					return out
+				}
+			}
+		}
+	}
+	return []ssa.Value{v}
 }
